@@ -21,8 +21,8 @@ theorem C02_failed_request_emits_nothing (db : Db) (fuel : Nat) (fwd : Bool) (r 
   | fuel => simp
 
 /-- … and inside a request: when a dependency fails (`setupOptional`, or any dependency while unwinding), the
-remaining actions of the table run from exactly the environment that was current before the attempt
-(`popStack("env")`); what the failed attempt did to `os.environ` is discarded. -/
+remaining actions of the table run from exactly the environment and aliases that were current before the attempt
+(`popStack("env")`); what the failed attempt did to `os.environ` and to the alias table is discarded. -/
 theorem C02_failed_dependency_restores_env (rec : Rec) (cfg : Cfg) (fwd : Bool) (depth : Nat) (vro : List VroEnt)
     (d : Decl) (n : Name) (opt just : Bool) (ver : Option VerReq) (vexpr : Option VExpr) (rest : List Act)
     (s s' : St) (hgo : cfg.maxDepth ≠ some depth) (hopt : fwd = false ∨ opt = true)
@@ -31,7 +31,7 @@ theorem C02_failed_dependency_restores_env (rec : Rec) (cfg : Cfg) (fwd : Bool) 
       rec fwd (depth + 1) just (if VroEnt.keep ∈ vro then VroEnt.keep :: vro else vro) n
         (if fwd then ver else none) (if fwd then vexpr else none) s = .raised s') :
     acts rec cfg fwd depth false vro d (.dep n opt just ver vexpr :: rest) s =
-      acts rec cfg fwd depth false vro d rest { s' with env := s.env } := by
+      acts rec cfg fwd depth false vro d rest { s' with env := s.env, aliases := s.aliases, unaliased := s.unaliased } := by
   have hcond : (fwd && !opt) = false := by rcases hopt with h | h <;> simp [h]
   rcases hfail with h | h <;> simp [acts, hgo, h, hcond]
 
@@ -41,7 +41,7 @@ theorem C02_failed_required_dependency_raises (rec : Rec) (cfg : Cfg) (depth : N
     (s s' : St) (hgo : cfg.maxDepth ≠ some depth)
     (hfail : rec true (depth + 1) just (if VroEnt.keep ∈ vro then VroEnt.keep :: vro else vro) n ver vexpr s = .notFound s' ∨
       rec true (depth + 1) just (if VroEnt.keep ∈ vro then VroEnt.keep :: vro else vro) n ver vexpr s = .raised s') :
-    acts rec cfg true depth false vro d (.dep n false just ver vexpr :: rest) s = .raised { s' with env := s.env } := by
+    acts rec cfg true depth false vro d (.dep n false just ver vexpr :: rest) s = .raised { s' with env := s.env, aliases := s.aliases, unaliased := s.unaliased } := by
   rcases hfail with h | h <;> simp [acts, hgo, h]
 
 /-! ## clause 1 is false as stated: two witnesses (design limits of eups, findings D15a / D15b) -/
